@@ -11,7 +11,9 @@ class C17(Prop):
     THEOREMS = ["C17_stats", "C17_sum_exact", "C17_minmax", "C17_rows_in_order", "C17_chunked_eq_serial", "C17_chunking_irrelevant",
                 "C17_name", "C17_values_over_bed", "C17_values_over_bed_last", "C17_stats_per_base", "C17_values_rows_in_order",
                 # the IEEE sum is the exact sum on a checkable domain (Proofs/FloatExact.v, FloatExactStats.v)
-                "C17_sum_ieee_on_grid", "C17_sum_ieee_in_domain"]
+                "C17_sum_ieee_on_grid", "C17_sum_ieee_in_domain",
+                # the file bytes as the subject: C01_query_on_input composed with the statistics (Proofs/BedStatsFile.v)
+                "C17_stats_file", "C17_bases_file", "C17_stats_per_base_file", "C17_values_file", "C17_line_file"]
     RULE = ("a bigWig from the C01 generator (1-6 chromosomes, layouts dense/sparse/adjacent/zero-length/edge/long gap/long item, all "
             "writer options) with values that are small multiples of 1/8 (exact stream, 80%) or arbitrary finite f32 patterns (20%: "
             "sum/means compared with the model only, not with the oracle); a BED file of 0..300 regions whose ends are drawn from the "
